@@ -509,11 +509,19 @@ def r5_mate_scores(ctx):
     dv = {facts.variant_discr(ge, n): n for n in ('Checkmate', 'Stalemate', 'Draw')}
     from sa.evalterm import ev, Unevaluable
     from sa.sym import wrap_int
+    def run_score(col):
+        try:
+            return Engine(facts, readonly=ro).run(name, args=[None, None, COLORS[col], None])
+        except PathLimit:
+            # the verdict is asked of something other than game_ending (a helper that generates moves): summarise every other function of
+            # the module and the generator, so that the paths of `score` itself are still enumerated and reported for what they return
+            ro2 = ro | {n_ for n_ in facts.fns if (n_.startswith(EV) and n_ != name) or n_.startswith('chess::move_generator::MoveGenerator::')}
+            return Engine(facts, readonly=ro2, max_paths=20000).run(name, args=[None, None, COLORS[col], None])
     seen = {}
     # the function is specialised on the scored side (so `if`, `match` and table look-ups indexed by the colour all fold) and the value
     # returned on each verdict is evaluated for every remaining depth 0..255
     for col in ('White', 'Black'):
-        outs = Engine(facts, readonly=ro).run(name, args=[None, None, COLORS[col], None])
+        outs = run_score(col)
         for o in outs:
             if o.kind != 'return':
                 continue
@@ -552,7 +560,7 @@ def r5_mate_scores(ctx):
     other = []
     n_ret = 0
     for col in ('White', 'Black'):
-        for o in Engine(facts, readonly=ro).run(name, args=[None, None, COLORS[col], None]):
+        for o in run_score(col):
             if o.kind != 'return':
                 continue
             n_ret += 1
